@@ -794,7 +794,7 @@ def run(ctx):
 
 
 def replay(ctx):
-    binpath = ctx.harness("c17")
+    binpath = os.environ.get("VERIF_C17_BIN") or ctx.harness("c17")
     c = ctx.replay["case"]
     if c.get("mode") == "render":
         eval_render(ctx, binpath, [c], "replay")
